@@ -607,6 +607,11 @@ func init() {
 		k := keyOf(args[2])
 		i.stub("param store: Subspace.Get/Set read and write a harness-provided table (one value per key)")
 		pv, ok := i.params[k]
+		if tag := i.ctxTag(args[1]); tag != "" {
+			if tv, tok := i.params[tag+"|"+k]; tok {
+				pv, ok = tv, true
+			}
+		}
 		if !ok {
 			if must {
 				unsupported("parameter %q not provided by the harness", k)
